@@ -2874,14 +2874,16 @@ class PGPKey(Armorable, ParentRef, PGPObject):
             warnings.warn("This message is not encrypted", stacklevel=3)
             return message
 
-        if self.fingerprint.keyid not in message.encrypters:
+        mis = set(message.encrypters)
+        candidates = [sk for skid, sk in self.subkeys.items() if skid in mis]
+        usable = [sk for sk in candidates if not sk.is_public and sk.is_unlocked]
+        # a message may be addressed to this key and to one of its subkeys as well (senders that encrypt to every
+        # encryption-capable component): when this key cannot do the work, a usable addressed subkey does it
+        if self.fingerprint.keyid not in mis or (usable and (self._is_stub or not self.is_unlocked)):
             # the component the message is encrypted to does the work, and it is its lock state that matters: the
             # primary key may be locked, or a stub without secret material (gpg --export-secret-subkeys), while the
             # encryption subkey is usable
-            mis = set(message.encrypters)
-            candidates = [sk for skid, sk in self.subkeys.items() if skid in mis]
             if candidates:
-                usable = [sk for sk in candidates if not sk.is_public and sk.is_unlocked]
                 return (usable or candidates)[0].decrypt(message)
 
             if '0' * 16 in mis:
